@@ -780,6 +780,43 @@ pub fn run(args: &Args, sink: &mut Sink) {
         }
     }
     sink.stat_n("exhaustive.E", ne);
+    // LT. long transactions: 17..40 recorded operations on a small vector (more diffs than elements), every way of ending
+    let mut nlt = 0u64;
+    {
+        let mut lr = Rng(args.seed ^ 0x17A5);
+        for k in 0..(if thorough { 600 } else { 120 }) {
+            let mut r = lr.fork();
+            nlt += 1;
+            sink.case(&format!("LT{nlt}"));
+            let mut w = World::new(sink, 16);
+            let init: Vec<V> = (1..=r.below(4) as V).collect();
+            if !init.is_empty() { w.direct(sink, &Op::Append(init.clone())); }
+            let p = w.subscribe(sink, false);
+            let b = w.subscribe(sink, true);
+            w.txn_begin(sink);
+            let n = 17 + r.below(24);
+            for _ in 0..n {
+                let len = w.len();
+                // keep the vector small: mostly sets and push/pop pairs
+                let op = match r.below(8) {
+                    0 | 1 if len > 0 => Op::Set(r.below(len), 1 + r.below(6) as V),
+                    2 if len < 4 => Op::PushB(1 + r.below(6) as V),
+                    3 if len < 4 => Op::PushF(1 + r.below(6) as V),
+                    4 => Op::PopB, 5 => Op::PopF,
+                    6 if len < 4 => Op::Ins(r.below(len + 1), 1 + r.below(6) as V),
+                    7 if len > 0 => Op::Rem(r.below(len)),
+                    _ => if len > 0 { Op::Set(0, 1 + r.below(6) as V) } else { Op::PushB(1 + r.below(6) as V) },
+                };
+                w.txn_op(sink, &op);
+            }
+            match k % 4 { 0 | 1 => w.txn_commit(sink), 2 => w.txn_drop(sink), _ => { w.txn_rollback(sink); w.txn_op(sink, &Op::PushB(9)); w.txn_commit(sink); } }
+            w.drain(sink, p); w.drain(sink, b);
+            w.direct(sink, &Op::PushB(3));
+            w.finish(sink);
+            sink.nontrivial();
+        }
+    }
+    sink.stat_n("long_txn_cases", nlt);
     // B. transactions, exhaustive bodies of length <= 2 (thorough 3), every way of ending, with and without subscribers
     let mut nb = 0u64;
     for len in [0usize, 2] {
